@@ -160,6 +160,18 @@ func (d *D) Base(idx int, ctx *core.Ctx) *core.Scenario {
 		}
 	}
 	sc.Argv = argv
+	if idx%23 == 7 && nfiles > 0 {
+		// misuse of the command line: nothing may be modified, whatever the status
+		switch r.Intn(3) {
+		case 0:
+			sc.Argv = append([]string{"fmt", "-w", "-c"}, argv[len(argv)-nfiles:]...)
+		case 1:
+			sc.Argv = append([]string{"fmt", "-w", "no-such-file.evy"}, argv[len(argv)-nfiles:]...)
+		case 2:
+			sc.Argv = append([]string{"fmt", "--no-such-flag"}, argv[len(argv)-nfiles:]...)
+		}
+		sc.Kind = "fmt-misuse"
+	}
 	if idx%5 == 4 {
 		// archive-focused scenario: several members, where formatting makes an
 		// early .evy member grow or shrink and other members (evy and non-evy) follow
@@ -501,7 +513,7 @@ func invariants(sc *core.Scenario, o *outcome, faults []simos.Fault) *core.Viola
 		}
 		return nil
 	}
-	if check {
+	if check && sc.Kind != "fmt-misuse" {
 		if o.status == 0 && !allFormatted {
 			return &core.Violation{Oracle: "I4-check-status", Signature: "I4:status-zero-for-unformatted", Expected: "`fmt -c` exits zero exactly for input that is already in formatted form",
 				Observed: obs(map[string]any{"all_files_formatted": allFormatted}), Match: map[string]string{"oracle": "I4-status"}}
